@@ -62,6 +62,9 @@ type run struct {
 	guard    bool
 	faultsPlanned int
 	settleReq, settleDone bool
+	hostileBudget int
+	probeOnly, probeSend bool
+	probeQ uint32
 	fault    faultCase
 	closeRets int
 	allDone  bool
@@ -81,6 +84,10 @@ func (r *run) newToken() uint64 { r.nextTok++; return r.nextTok }
 // mfail reports a verdict of the protocol monitor (C06/C07/C08 oracles); the
 // fault-sweep runs of C09 use only the termination oracles.
 func (r *run) mfail(oracle, site, detail string) {
+	if r.prop == "C08" {
+		r.s.Probe("monitor_verdict_ignored_with_hostile_peer:" + oracle)
+		return
+	}
 	if r.prop == "C09" {
 		r.s.Probe("monitor_verdict_ignored_in_fault_sweep:" + oracle)
 		return
@@ -147,11 +154,11 @@ func (r *run) peerGotReturn(q *myQuestion) {
 	s := r.s
 	if q.kind == "bootstrap" {
 		if q.retErr != "" {
-			s.Fail("return_wrong_content", "rpc.go:(*Conn).handleBootstrap", fmt.Sprintf("Bootstrap question %d was answered with %q although a bootstrap capability is exported", q.id, q.retErr))
+			r.mfail("return_wrong_content", "rpc.go:(*Conn).handleBootstrap", fmt.Sprintf("Bootstrap question %d was answered with %q although a bootstrap capability is exported", q.id, q.retErr))
 			return
 		}
 		if len(q.retCaps) != 1 || q.retCaps[0].kind != "senderHosted" {
-			s.Fail("return_wrong_content", "rpc.go:(*Conn).handleBootstrap", fmt.Sprintf("Bootstrap return carries descriptors %v, want one senderHosted", q.retCaps))
+			r.mfail("return_wrong_content", "rpc.go:(*Conn).handleBootstrap", fmt.Sprintf("Bootstrap return carries descriptors %v, want one senderHosted", q.retCaps))
 		}
 		return
 	}
@@ -165,11 +172,11 @@ func (r *run) peerGotReturn(q *myQuestion) {
 					return // the peer finished (cancelled) the question: any answer is acceptable
 				}
 				if !tq.returnSent {
-					s.Fail("return_wrong_content", "import.go:returnAnswer", fmt.Sprintf("forwarded call (token %d) was answered before the peer returned", q.token))
+					r.mfail("return_wrong_content", "import.go:returnAnswer", fmt.Sprintf("forwarded call (token %d) was answered before the peer returned", q.token))
 					return
 				}
 				if tq.retExc != (q.retErr != "") || (!tq.retExc && q.retToken != tq.retToken) {
-					s.Fail("return_wrong_content", "import.go:returnAnswer", fmt.Sprintf("forwarded call (token %d): the peer answered token %d / exception=%v but the relayed Return carries token %d / %q", q.token, tq.retToken, tq.retExc, q.retToken, q.retErr))
+					r.mfail("return_wrong_content", "import.go:returnAnswer", fmt.Sprintf("forwarded call (token %d): the peer answered token %d / exception=%v but the relayed Return carries token %d / %q", q.token, tq.retToken, tq.retExc, q.retToken, q.retErr))
 				}
 				return
 			}
@@ -179,20 +186,20 @@ func (r *run) peerGotReturn(q *myQuestion) {
 	case ac == nil:
 		// never delivered: must be an exception (or canceled after Finish)
 		if q.retErr == "" {
-			s.Fail("return_wrong_content", "answer.go:(*answer).sendReturn", fmt.Sprintf("call %d (token %d, target %s) was answered with results although no application capability ever saw it", q.id, q.token, q.target))
+			r.mfail("return_wrong_content", "answer.go:(*answer).sendReturn", fmt.Sprintf("call %d (token %d, target %s) was answered with results although no application capability ever saw it", q.id, q.token, q.target))
 		}
 	case !ac.done:
-		s.Fail("return_wrong_content", "answer.go:(*answer).Return", fmt.Sprintf("call %d (token %d) was answered (%q / token %d) while its implementation is still running", q.id, q.token, q.retErr, q.retToken))
+		r.mfail("return_wrong_content", "answer.go:(*answer).Return", fmt.Sprintf("call %d (token %d) was answered (%q / token %d) while its implementation is still running", q.id, q.token, q.retErr, q.retToken))
 	case ac.err != nil:
 		if q.retErr == "" || (q.retErr != "canceled" && !strings.Contains(q.retErr, ac.err.Error())) {
-			s.Fail("return_wrong_content", "answer.go:(*answer).sendException", fmt.Sprintf("call %d (token %d): the implementation failed with %q but the Return says %q (token %d)", q.id, q.token, ac.err, q.retErr, q.retToken))
+			r.mfail("return_wrong_content", "answer.go:(*answer).sendException", fmt.Sprintf("call %d (token %d): the implementation failed with %q but the Return says %q (token %d)", q.id, q.token, ac.err, q.retErr, q.retToken))
 		}
 	default:
 		if q.retErr == "canceled" && q.finishSent {
 			return
 		}
 		if q.retErr != "" || q.retToken != ac.retToken {
-			s.Fail("return_wrong_content", "answer.go:(*answer).sendReturn", fmt.Sprintf("call %d (token %d): the implementation produced token %d but the Return carries token %d / exception %q", q.id, q.token, ac.retToken, q.retToken, q.retErr))
+			r.mfail("return_wrong_content", "answer.go:(*answer).sendReturn", fmt.Sprintf("call %d (token %d): the implementation produced token %d but the Return carries token %d / exception %q", q.id, q.token, ac.retToken, q.retToken, q.retErr))
 		}
 	}
 }
@@ -206,20 +213,21 @@ func (r *run) peerTask() {
 		s.Block("peer", func() bool {
 			return len(r.toPeer) > 0 || r.peerHasMove() || r.peerDone || (r.settleReq && !r.settleDone)
 		})
-		if r.peerDone && len(r.toPeer) == 0 {
-			return
-		}
 		if r.settleReq && !r.settleDone {
 			r.peerSettle()
 			r.settleDone = true
 			continue
+		}
+		if r.peerDone && len(r.toPeer) == 0 {
+			return
 		}
 		if p.aborted {
 			// after an Abort the peer just drains
 			if len(r.toPeer) > 0 {
 				r.toPeer = r.toPeer[1:]
 			} else {
-				r.peerDone = true
+				r.peerBudget = 0
+				s.Block("peer-aborted", func() bool { return r.peerDone || (r.settleReq && !r.settleDone) })
 			}
 			continue
 		}
@@ -229,6 +237,9 @@ func (r *run) peerTask() {
 		}
 		if r.peerBudget > 0 && !r.closed {
 			moves = append(moves, "bootstrap", "call", "call", "call", "finish", "release")
+			if r.hostileBudget > 0 {
+				moves = append(moves, "hostile", "hostile")
+			}
 		}
 		if r.pendingTheirQ() {
 			moves = append(moves, "return", "return")
@@ -263,6 +274,11 @@ func (r *run) peerTask() {
 			}
 		case "return":
 			p.moveReturn()
+		case "hostile":
+			r.hostileBudget--
+			r.peerBudget--
+			what := p.hostileMove()
+			r.desc = append(r.desc, "hostile: "+what)
 		}
 		p.moves++
 	}
@@ -420,11 +436,11 @@ func (r *run) checkLocalResult(lc *localCall, st capnp.Struct, err error) {
 	switch {
 	case err == nil:
 		if q == nil || !q.returnSent || q.retExc {
-			s.Fail("local_wrong_result", "rpc.go:(*Conn).handleReturn", fmt.Sprintf("local call %d resolved successfully although the peer did not return results for it (sent=%v)", lc.token, q != nil))
+			r.mfail("local_wrong_result", "rpc.go:(*Conn).handleReturn", fmt.Sprintf("local call %d resolved successfully although the peer did not return results for it (sent=%v)", lc.token, q != nil))
 			return
 		}
 		if got := st.Uint64(0); got != q.retToken {
-			s.Fail("local_wrong_result", "rpc.go:(*Conn).handleReturn", fmt.Sprintf("local call %d resolved with token %d, the peer returned %d", lc.token, got, q.retToken))
+			r.mfail("local_wrong_result", "rpc.go:(*Conn).handleReturn", fmt.Sprintf("local call %d resolved with token %d, the peer returned %d", lc.token, got, q.retToken))
 		}
 	default:
 		if q != nil && q.returnSent && !q.retExc && q.retToken != 0 && !lc.cancelled && r.connOpen() && !r.hostile {
@@ -576,6 +592,11 @@ func (r *run) mainTask() {
 	}
 	r.conn = rpc.NewConn(r.tr, &rpc.Options{BootstrapClient: boot.client.AddRef(), ErrorReporter: reporter{r}})
 	r.peerBudget = 2 + s.Choice("peer-budget", 10)
+	if r.prop == "C08" {
+		r.hostile = true
+		r.hostileBudget = 1 + s.Choice("hostile-budget", 3)
+		r.peerBudget += r.hostileBudget
+	}
 	r.ncallers = s.Choice("ncallers", 3)
 	r.desc = append(r.desc, fmt.Sprintf("topology A: peer budget %d, %d local callers, %d app caps", r.peerBudget, r.ncallers, len(r.apps)))
 	s.AddEvent("release-slow-call", func() bool {
@@ -658,7 +679,7 @@ func (r *run) settleAndClose() {
 	s := r.s
 	p := r.peer
 	orderly := s.Choice("orderly", 3) != 0
-	if orderly && !p.aborted && !r.closed && r.connOpen() {
+	if orderly && !p.aborted && !r.closed && r.connOpen() && !r.hostile {
 		// the peer (in its own task) finishes its questions and releases everything it holds
 		r.settleReq = true
 		s.Block("settled", func() bool { return r.settleDone })
@@ -686,6 +707,12 @@ func (r *run) settleAndClose() {
 	}
 	if s.Failed() {
 		return
+	}
+	if r.hostile && !s.Failed() {
+		r.livenessProbe()
+		if s.Failed() {
+			return
+		}
 	}
 	r.allDone = true
 	if !r.closed {
@@ -726,7 +753,14 @@ func (r *run) peerSettle() {
 			}
 		}
 	}
+	if r.probeSend {
+		r.probeQ = p.nextQ
+		p.moveBootstrap()
+	}
 	quiet()
+	if r.probeOnly {
+		return
+	}
 	for _, id := range p.order {
 		q := p.myQ[id]
 		if !q.finishSent && !s.Failed() {
@@ -744,6 +778,34 @@ func (r *run) peerSettle() {
 		p.send(fmt.Sprintf("Release id=%d count=%d (final)", e.id, n), p.build(releaseMsg(e.id, uint32(n))))
 	}
 	quiet()
+}
+
+// livenessProbe (C08): if the connection survived the hostile messages it must still answer a
+// well-formed Bootstrap - that is what distinguishes "tolerated" from "wedged".
+func (r *run) livenessProbe() {
+	s := r.s
+	p := r.peer
+	// let the reactions to the hostile messages play out
+	r.settleReq = true
+	r.probeOnly = true
+	s.Block("probe-settled", func() bool { return r.settleDone })
+	if s.Failed() || !r.connOpen() || p.aborted {
+		if p.aborted {
+			s.Probe("hostile_answered_with_abort")
+		}
+		return
+	}
+	s.Probe("hostile_tolerated_connection_alive")
+	r.settleDone = false
+	r.probeSend = true
+	s.Block("probe-answered", func() bool { return r.settleDone })
+	if s.Failed() || !r.connOpen() || p.aborted {
+		return
+	}
+	q := p.myQ[r.probeQ]
+	if q == nil || q.returns != 1 {
+		s.Fail("wedged", "rpc.go:(*Conn).receive", fmt.Sprintf("after the hostile messages %v the connection stayed up but a well-formed Bootstrap (question %d) was never answered", r.desc, r.probeQ))
+	}
 }
 
 func (r *run) checkQuiescentTables() {
